@@ -15,6 +15,8 @@
       y1 = copy.deepcopy(self.y0)
       for _ in range(max_steps):                                         [sf_max_steps]
           y2 = np.array(integ.integrate(t), dtype=float)                 [sf_prev: copy | alias]
+          if not integ.successful():                                     [sf_succ: checked | unchecked]
+              return Result(IntegrationFailure())                        (only with fixes/C15-integrator-failure.diff)
           diff = (y2 - y1) / y1 if rel_norm else y2 - y1                 [sf_rel]
           if np.linalg.norm(diff, ord=2) < tolerance:                    [sf_norm, sf_cmp]
               return Result(TimeCourse(time=[t], values=[y2]))
@@ -25,7 +27,14 @@
     [integ.integrate] returns scipy's internal output buffer, which the next call overwrites
     in place.  With [sf_prev = PrevAlias] (the code before commit 0b233ce) [y1 = y2] makes
     [y1] a reference to that buffer, so from the second iteration on [y1] and [y2] are the same
-    array: modelled by [prev_ref]. *)
+    array: modelled by [prev_ref].
+
+    [integ.integrate(t)] does not raise when the solver fails (LSODA: too much work, step size
+    underflow at a singularity, ...): it warns, clears [integ.successful()] and returns the state
+    where it got stuck.  Hence the trajectory handed to the loop is the sequence of RETURNED
+    BUFFERS [y (S i)] together with [ok (S i)] = [integ.successful()] after the call of iteration
+    [i]; only while [ok] holds is [y (S i)] the flow at [t0 + (S i) * step_size].  The snapshot code
+    ([sf_succ = SuccUnchecked]) never looks at [ok]. *)
 From Coq Require Import QArith Qabs ZArith NArith List Bool.
 Import ListNotations.
 
@@ -36,6 +45,7 @@ Inductive norm_kind := NormL2 | NormUnknown.
 Inductive prev_kind := PrevCopy | PrevAlias | PrevUnknown.
 Inductive rel_kind := RelDivPrev | RelUnknown.
 Inductive exhaust_kind := ExhaustFail | ExhaustUnknown.
+Inductive succ_kind := SuccChecked | SuccUnchecked | SuccUnknown.
 
 Record ss_facts := mkSSFacts {
   sf_step : Z;               (* default of step_size (the Simulator never passes it) *)
@@ -45,6 +55,7 @@ Record ss_facts := mkSSFacts {
   sf_prev : prev_kind;       (* is the previous iterate a copy or an alias of the buffer *)
   sf_rel : rel_kind;         (* (y2 - y1) / y1 if rel_norm else y2 - y1 *)
   sf_exhaust : exhaust_kind; (* what follows the loop *)
+  sf_succ : succ_kind;       (* is integ.successful() tested after integ.integrate(t) *)
   sf_shape_ok : bool         (* every other statement of the method (and of reset) is as above *)
 }.
 
@@ -54,7 +65,8 @@ Definition facts_known (F : ss_facts) : bool :=
   && match sf_norm F with NormUnknown => false | _ => true end
   && match sf_prev F with PrevUnknown => false | _ => true end
   && match sf_rel F with RelUnknown => false | _ => true end
-  && match sf_exhaust F with ExhaustUnknown => false | _ => true end.
+  && match sf_exhaust F with ExhaustUnknown => false | _ => true end
+  && match sf_succ F with SuccUnknown => false | _ => true end.
 
 (** ** numpy expressions *)
 
@@ -119,13 +131,19 @@ Inductive ss_out :=
 | SSSteady (t : Q) (v : vec)   (* Result(TimeCourse(time=[t], values=[v])) *)
 | SSNoSteady                   (* Result(NoSteadyState()) *)
 | SSShape                      (* numpy shape error (proved unreachable for well-shaped trajectories) *)
-| SSUnknownFacts.              (* the extractor did not recognise the source: never equals anything *)
+| SSUnknownFacts               (* the extractor did not recognise the source: never equals anything *)
+| SSIntegFail.                 (* Result(IntegrationFailure()): integ.successful() was False *)
 
 Section Loop.
   Variable F : ss_facts.
   Variable tol : Q.
   Variable rel : bool.
   Variable y : nat -> vec.
+  Variable ok : nat -> bool.
+
+  (** does iteration [i] stop with the integrator's failure *)
+  Definition step_aborts (i : nat) : bool :=
+    match sf_succ F with SuccChecked => negb (ok (S i)) | _ => false end.
 
   Fixpoint ss_loop (fuel : nat) (i : nat) (t : Q) (y1 : prev_ref) : ss_out :=
     match fuel with
@@ -134,6 +152,7 @@ Section Loop.
         let buffer := y (S i) in                            (* integ.integrate(t) *)
         let y2 := buffer in
         let y1v := match y1 with Held v => v | Buffer => buffer end in
+        if step_aborts i then SSIntegFail else               (* if not integ.successful(): return ... *)
         match conv_test F tol rel y1v y2 with
         | TShape => SSShape
         | TConv => SSSteady t y2
@@ -146,10 +165,15 @@ End Loop.
 
 (** [integrate_to_steady_state(tolerance=tol, rel_norm=rel)] on an integrator created with
     initial values [y0] whose flow sampled every [step_size] is [y] *)
-Definition ss_run (F : ss_facts) (tol : Q) (rel : bool) (y0 : vec) (y : nat -> vec) : ss_out :=
+Definition ss_run_s (F : ss_facts) (tol : Q) (rel : bool) (y0 : vec) (y : nat -> vec) (ok : nat -> bool) : ss_out :=
   if facts_known F
-  then ss_loop F tol rel y (N.to_nat (sf_max_steps F)) 0 (0 + inject_Z (sf_step F)) (Held y0)
+  then ss_loop F tol rel y ok (N.to_nat (sf_max_steps F)) 0 (0 + inject_Z (sf_step F)) (Held y0)
   else SSUnknownFacts.
+
+(** the same when every integration step succeeds (the solver follows the flow) *)
+Definition all_ok : nat -> bool := fun _ => true.
+Definition ss_run (F : ss_facts) (tol : Q) (rel : bool) (y0 : vec) (y : nat -> vec) : ss_out :=
+  ss_run_s F tol rel y0 y all_ok.
 
 (** ** plumbing: Simulator and scan worker *)
 
@@ -167,13 +191,38 @@ Record plumb_facts := mkPlumb {
 Record sim_state := mkSim { s_variables : option (list (Q * vec)); s_errors : list sim_error }.
 Definition sim_fresh : sim_state := mkSim None [].
 
-(** [_handle_simulation_results(result, skipfirst=False)] on a fresh simulator *)
-Definition handle_result (s : sim_state) (r : ss_out) : option sim_state :=
+(** what one call of the integrator hands to [_handle_simulation_results]:
+    [Result(TimeCourse(time, values))] (rows = (time, state)) or [Result(<exception>)] *)
+Inductive tc_res := TCRows (rows : list (Q * vec)) | TCFail (e : sim_error).
+
+(** [_handle_simulation_results(result, skipfirst)] ([_time_shift] is None: no update_variable in
+    the histories modelled here).  The frames of [variables] are kept flattened, as
+    [Simulation.variables] concatenates them.  The catch-all arm [case _ as e] records EVERY
+    non-TimeCourse value. *)
+Definition handle_tc (s : sim_state) (r : tc_res) (skipfirst : bool) : sim_state :=
   match r with
-  | SSSteady t v =>
-      Some (mkSim (Some (match s_variables s with None => [(t, v)] | Some l => l ++ [(t, v)] end)) (s_errors s))
-  | SSNoSteady => Some (mkSim (s_variables s) (s_errors s ++ [ENoSteadyState]))
-  | _ => None
+  | TCRows rows =>
+      mkSim (Some (match s_variables s with
+                   | None => rows
+                   | Some l => l ++ (if skipfirst then tl rows else rows)
+                   end)) (s_errors s)
+  | TCFail e => mkSim (s_variables s) (s_errors s ++ [e])
+  end.
+
+(** the [Result] returned by [integrate_to_steady_state] *)
+Definition tc_of_ss (r : ss_out) : option tc_res :=
+  match r with
+  | SSSteady t v => Some (TCRows [(t, v)])
+  | SSNoSteady => Some (TCFail ENoSteadyState)
+  | SSIntegFail => Some (TCFail EIntegrationFailure)
+  | SSShape | SSUnknownFacts => None
+  end.
+
+(** [_handle_simulation_results(integrate_to_steady_state(...), skipfirst=False)] *)
+Definition handle_result (s : sim_state) (r : ss_out) : option sim_state :=
+  match tc_of_ss r with
+  | Some tc => Some (handle_tc s tc false)
+  | None => None
   end.
 
 (** [simulate_to_steady_state]: skipped entirely when an error was recorded before *)
@@ -181,6 +230,29 @@ Definition sim_to_steady (s : sim_state) (r : ss_out) : option sim_state :=
   match s_errors s with
   | _ :: _ => Some s
   | [] => handle_result s r
+  end.
+
+(** ** histories of one Simulator
+
+    [OpSimulate r]: [simulate(t_end, steps)] or [simulate_time_course(points)] where the integrator's
+    [integrate] / [integrate_time_course] returned [r] (both pass [skipfirst=True]);
+    [OpSteady r]: [simulate_to_steady_state(tolerance, rel_norm=...)] where the loop returned [r].
+    Every method starts with [if len(self._errors) > 0: return self]. *)
+Inductive sim_op := OpSimulate (r : tc_res) | OpSteady (r : ss_out).
+
+Definition sim_step (s : sim_state) (op : sim_op) : option sim_state :=
+  match s_errors s with
+  | _ :: _ => Some s
+  | [] => match op with
+          | OpSimulate r => Some (handle_tc s r true)
+          | OpSteady r => handle_result s r
+          end
+  end.
+
+Fixpoint sim_hist (s : sim_state) (ops : list sim_op) : option sim_state :=
+  match ops with
+  | [] => Some s
+  | op :: ops' => match sim_step s op with Some s' => sim_hist s' ops' | None => None end
   end.
 
 (** [get_result] *)
@@ -235,15 +307,19 @@ Definition traj_fun (tr : traj) : nat -> vec :=
   end.
 
 (** observation compared with the implementation: success + reported time, or failure *)
-Inductive ss_obs := ObsSteady (t : Q) | ObsNoSteady | ObsOther.
+Inductive ss_obs := ObsSteady (t : Q) | ObsNoSteady | ObsOther | ObsIntegFail.
 
 Definition obs_of (o : ss_out) : ss_obs :=
-  match o with SSSteady t _ => ObsSteady t | SSNoSteady => ObsNoSteady | _ => ObsOther end.
+  match o with
+  | SSSteady t _ => ObsSteady t | SSNoSteady => ObsNoSteady | SSIntegFail => ObsIntegFail
+  | _ => ObsOther
+  end.
 
 Definition obs_eqb (a b : ss_obs) : bool :=
   match a, b with
   | ObsSteady t, ObsSteady u => Qeq_bool t u
   | ObsNoSteady, ObsNoSteady => true
+  | ObsIntegFail, ObsIntegFail => true
   | _, _ => false
   end.
 
@@ -252,4 +328,36 @@ Definition row_kind_eqb (a : option scan_row) (nan : bool) : bool :=
   | Some RowNaN => nan
   | Some (RowValues _) => negb nan
   | None => false
+  end.
+
+(** recorded runs: the buffers the real solver returned and its success flags *)
+Definition ok_fun (l : list bool) : nat -> bool := fun n => nth n l true.
+
+(** exact comparison of [get_result] after a history with the implementation's *)
+Fixpoint vec_eqb (a b : vec) : bool :=
+  match a, b with
+  | [], [] => true
+  | x :: a', z :: b' => Qeq_bool x z && vec_eqb a' b'
+  | _, _ => false
+  end.
+Fixpoint rows_eqb (a b : list (Q * vec)) : bool :=
+  match a, b with
+  | [], [] => true
+  | (t, v) :: a', (u, w) :: b' => Qeq_bool t u && vec_eqb v w && rows_eqb a' b'
+  | _, _ => false
+  end.
+Definition err_eqb (a b : sim_error) : bool :=
+  match a, b with
+  | ENoSteadyState, ENoSteadyState | EIntegrationFailure, EIntegrationFailure | EOther, EOther => true
+  | _, _ => false
+  end.
+Definition hist_result (P : plumb_facts) (ops : list sim_op) : option sim_result :=
+  if pf_sim_ok P
+  then match sim_hist sim_fresh ops with Some s => Some (get_result s) | None => None end
+  else None.
+Definition result_eqb (a : option sim_result) (b : sim_result) : bool :=
+  match a, b with
+  | Some (RSimulation l), RSimulation m => rows_eqb l m
+  | Some (RError e), RError f => err_eqb e f
+  | _, _ => false
   end.
